@@ -144,18 +144,18 @@ func init() {
 		return fmt.Sprintf("ok %s %d %d %d %v", core.Hex(p.VerifHeader()), len(p.GetData()), rd.Len(), len(d), bytes.Equal(d, sent))
 	})
 	core.Register("C12.my.payload.enc", func(a []string) string {
-		return showBig(myEncodePayload(core.Atoi(a[0]), genPayload(core.Atoi(a[1]), core.Atoi(a[2]))))
+		return "ok " + showBig(myEncodePayload(core.Atoi(a[0]), genPayload(core.Atoi(a[1]), core.Atoi(a[2]))))
 	})
 	core.Register("C12.my.setdata", func(a []string) string {
 		p := my.VerifNewPacket(append([]byte{}, core.UnHex(a[0])...), nil)
 		p.SetData(core.UnHex(a[1]))
-		return fmt.Sprintf("%s %s", core.Hex(p.VerifHeader()), showBig(p.Dump()))
+		return fmt.Sprintf("ok %s %s", core.Hex(p.VerifHeader()), showBig(p.Dump()))
 	})
 	core.Register("C12.my.setdata.len", func(a []string) string {
 		// SetData with a payload given by its length only (contents do not matter for the header)
 		p := my.VerifNewPacket(append([]byte{}, core.UnHex(a[0])...), nil)
 		p.SetData(make([]byte, core.Atoi(a[1])))
-		return core.Hex(p.VerifHeader())
+		return core.OkHex(p.VerifHeader())
 	})
 	core.Register("C12.my.replacequery", func(a []string) string {
 		p := my.VerifNewPacket(append([]byte{}, core.UnHex(a[0])...), append([]byte{}, core.UnHex(a[1])...))
